@@ -115,3 +115,17 @@ pub fn require_probes(cov: &Cov, out: &mut Vec<Shortfall>) {
         }
     }
 }
+
+/// Run-length stratum: one run in 128 is a marathon (40 times the drawn length), so
+/// that defects which need a long history - a counter that wraps after hundreds of
+/// frames or events - are within reach; the rest stay short and diverse.
+pub fn marathon(run: u64, n: usize) -> usize {
+    if run % 128 == 127 {
+        n * 40
+    } else {
+        n
+    }
+}
+pub fn is_marathon(run: u64) -> bool {
+    run % 128 == 127
+}
